@@ -1,9 +1,131 @@
 import Lean.Data.Json
+import PydjinniModel.Gen.Yaml
 /-! Driver handlers for property C13: `handle op request` answers one JSON request. -/
 namespace Pydjinni.Drv.C13
-open Lean
+open Lean Pydjinni.Gen.Yaml
 
-def handle (op : String) (_req : Json) : Except String Json :=
-  throw s!"unknown op {op}"
+def valOfJson : Json → Except String Val
+  | .str s => pure (.str s)
+  | .bool b => pure (.bool b)
+  | .null => pure .null
+  | .arr a => do
+    let l ← a.toList.mapM (fun j => match j with | .str s => pure s | _ => throw "list value: expected strings")
+    pure (.list l)
+  | j => throw s!"value: expected string, bool, list of strings or null, got {j.compress}"
+
+def valJ : Val → Json
+  | .str s => Json.str s
+  | .bool b => Json.bool b
+  | .list l => Json.arr (l.map Json.str).toArray
+  | .null => Json.null
+
+def optValJ : Option Val → Json
+  | some v => Json.mkObj [("v", valJ v)]
+  | none => Json.mkObj [("missing", true)]
+
+def kvOfJson (j : Json) : Except String (List (String × Val)) := do
+  let a ← j.getArr?
+  a.toList.mapM (fun p => do
+    let k ← p.getArrVal? 0 >>= (·.getStr?)
+    let v ← p.getArrVal? 1 >>= valOfJson
+    pure (k, v))
+
+def kvJ (kv : List (String × Val)) : Json := Json.arr (kv.map (fun (k, v) => Json.arr #[Json.str k, valJ v])).toArray
+
+def propOfJson (j : Json) : Except String MProp := do
+  pure { name := ← j.getObjValAs? String "n", value := ← j.getObjVal? "v" >>= valOfJson, computed := ← j.getObjValAs? Bool "c" }
+
+def declOfJson (j : Json) : Except String LocalDecl := do
+  let base ← j.getObjVal? "base" >>= kvOfJson
+  let node ← j.getObjVal? "node" >>= kvOfJson
+  let ms ← j.getObjVal? "marsh" >>= (·.getArr?)
+  let marsh ← ms.toList.mapM (fun p => do
+    let g ← p.getArrVal? 0 >>= (·.getStr?)
+    let ps ← p.getArrVal? 1 >>= (·.getArr?)
+    pure (g, ← ps.toList.mapM propOfJson))
+  pure { base := ⟨base⟩, node := node, marsh := marsh }
+
+def specOfJson (j : Json) : Except String ExtSpec := do
+  let a ← j.getArr?
+  a.toList.mapM (fun p => do
+    let g ← p.getArrVal? 0 >>= (·.getStr?)
+    let fs ← p.getArrVal? 1 >>= (·.getArr?)
+    let fields ← fs.toList.mapM (fun f => do
+      pure ({ name := ← f.getObjValAs? String "n", required := ← f.getObjValAs? Bool "req", default := ← f.getObjVal? "def" >>= valOfJson } : FieldSpec))
+    pure (g, fields))
+
+def docJ (d : Doc) : Json :=
+  Json.mkObj [("base", kvJ d.base), ("gens", Json.arr (d.gens.map (fun (g, kv) => Json.arr #[Json.str g, kvJ kv])).toArray)]
+
+def docOfJson (j : Json) : Except String Doc := do
+  let base ← j.getObjVal? "base" >>= kvOfJson
+  let gs ← j.getObjVal? "gens" >>= (·.getArr?)
+  let gens ← gs.toList.mapM (fun p => do
+    pure (← p.getArrVal? 0 >>= (·.getStr?), ← p.getArrVal? 1 >>= kvOfJson))
+  pure { base := base, gens := gens }
+
+def extJ (e : ExtType) : Json :=
+  Json.mkObj [("base", kvJ e.base),
+    ("gens", Json.arr (e.gens.map (fun (g, o) => Json.arr #[Json.str g, match o with | some kv => kvJ kv | none => Json.null])).toArray)]
+
+def extOfJson (j : Json) : Except String ExtType := do
+  let base ← j.getObjVal? "base" >>= kvOfJson
+  let gs ← j.getObjVal? "gens" >>= (·.getArr?)
+  let gens ← gs.toList.mapM (fun p => do
+    let g ← p.getArrVal? 0 >>= (·.getStr?)
+    let v ← p.getArrVal? 1
+    match v with
+    | .null => pure (g, none)
+    | _ => pure (g, some (← kvOfJson v)))
+  pure { base := base, gens := gens }
+
+def usedOfJson (j : Json) : Except String (List Used) := do
+  let a ← j.getArr?
+  a.toList.mapM (fun p => do
+    pure ({ gen := ← p.getArrVal? 0 >>= (·.getStr?), attr := ← p.getArrVal? 1 >>= (·.getStr?), ctx := ← p.getArrVal? 2 >>= (·.getStr?) } : Used))
+
+/-- the reads that apply to a declaration of the given primitive, expanded over the generators for "*" -/
+def applicable (used : List Used) (prim : String) (gens : List String) : List Attr :=
+  (used.filter (fun u => u.ctx = "any" || (u.ctx = "error" && prim = "error"))).flatMap (fun u =>
+    -- the guarded reads of `filters.py: headers` (`base_type`, `derived_header`) are one read of the effective header
+    let a := if u.attr = "base_type" || u.attr = "derived_header" then "<header>" else u.attr
+    if u.gen = "*" then gens.map (fun g => (g, a)) else [(u.gen, a)]) |>.eraseDups
+
+/-- specification: every applicable read gives the same value through the loaded type as through the local declaration -/
+def specViews (d : LocalDecl) (e : ExtType) (attrs : List Attr) : Json :=
+  let diffs := attrs.filter (fun a => view (.ext e) a != view (.local d) a)
+  Json.mkObj [("holds", diffs.isEmpty),
+    ("differing", Json.arr (diffs.map (fun a => Json.mkObj [("gen", a.1), ("attr", a.2),
+        ("local", optValJ (view (.local d) a)), ("ext", optValJ (view (.ext e) a))])).toArray),
+    ("same_key", registryKey e.base == registryKey d.base.fields)]
+
+def handle (op : String) (req : Json) : Except String Json :=
+  match op with
+  | "c13.export" => do
+    let d ← req.getObjVal? "decl" >>= declOfJson
+    pure (docJ («export» d))
+  | "c13.load" => do
+    let spec ← req.getObjVal? "spec" >>= specOfJson
+    let doc ← req.getObjVal? "doc" >>= docOfJson
+    match load spec doc with
+    | some e => pure (extJ e)
+    | none => pure (Json.mkObj [("invalid", true)])
+  | "c13.spec" => do
+    -- on the implementation's observations: the real marshalling tables and the really loaded external type
+    let d ← req.getObjVal? "decl" >>= declOfJson
+    let e ← req.getObjVal? "loaded" >>= extOfJson
+    let used ← req.getObjVal? "used" >>= usedOfJson
+    let prim ← req.getObjValAs? String "primitive"
+    pure (specViews d e (applicable used prim (d.marsh.map (·.1))))
+  | "c13.roundtrip" => do
+    -- the model's own round trip
+    let d ← req.getObjVal? "decl" >>= declOfJson
+    let spec ← req.getObjVal? "spec" >>= specOfJson
+    let used ← req.getObjVal? "used" >>= usedOfJson
+    let prim ← req.getObjValAs? String "primitive"
+    match load spec («export» d) with
+    | some e => pure (specViews d e (applicable used prim (d.marsh.map (·.1))))
+    | none => pure (Json.mkObj [("invalid", true)])
+  | _ => throw s!"unknown op {op}"
 
 end Pydjinni.Drv.C13
